@@ -360,6 +360,11 @@ def handle (j : Json) : Except String Json := do
     match Verilog.read (← (← j.getObjVal? "text").getStr?) (← (← j.getObjVal? "name").getStr?) bbs ord with
     | .ok c => pure (respond .ok [("c", circuitToJson c)])
     | .error e => pure (respond e [])
+  | "fast_verilog_read" =>
+    let bbs ← (← (← j.getObjVal? "bbs").getArr?).toList.mapM (fun x => do bboxOfJson (← x.getArr?) 0)
+    match FastVerilog.parse (← (← j.getObjVal? "text").getStr?) bbs ord ord with
+    | .ok c => pure (respond .ok [("c", circuitToJson c)])
+    | .error e => pure (respond e [])
   | "verilog_write" =>
     match Verilog.write (← circuitOfJson (← j.getObjVal? "c")) (getBoolD j "behavioral" false) ord with
     | .ok t => pure (respond .ok [("text", jstr t)])
